@@ -102,7 +102,10 @@ def canon(o, _depth=0):
         return {
             "rs": hashlib.sha256(np.asarray(st[1]).tobytes() + repr(st[2:]).encode()).hexdigest()[:24]
         }
-    if isinstance(o, (list, tuple, deque)):
+    if isinstance(o, deque):
+        # the bound is part of a window's state (deque == deque ignores it)
+        return {"deque": [canon(x, _depth + 1) for x in o], "maxlen": o.maxlen}
+    if isinstance(o, (list, tuple)):
         return [canon(x, _depth + 1) for x in o]
     if isinstance(o, (set, frozenset)):
         return sorted((canon(x, _depth + 1) for x in o), key=repr)
